@@ -486,7 +486,7 @@ func (e *Env) upperCap(k *scoreKit) {
 		case t.Op == ir.OConst:
 			f, ok := floatConst(t)
 			return ok && f <= 10, "constant"
-		case t.Op == ir.OCall && t.Obj == types.Object(k.mathFn["Min"]):
+		case ir.IsFMin(t):
 			for _, a := range t.Args {
 				if f, ok := floatConst(a); ok && f <= 10 {
 					return true, "min(.,10)"
